@@ -184,7 +184,8 @@ pub fn oracle_c13(a: &AMod, b: &AMod) -> Vec<(String, String)> {
 /// only the entities the input names are looked at, and there the input's name has to be found
 pub fn oracle_c13_with(a: &AMod, b: &AMod, extra_ok: bool) -> Vec<(String, String)> {
     let mut f = vec![];
-    let Some(Ok(na)) = a.names() else { return f };
+    // (every name section of the input counts: walrus applies them all, in order)
+    let Some(na) = a.names_lenient() else { return f };
     let nb = match b.names() {
         Some(Ok(n)) => n,
         Some(Err(e)) => {
